@@ -1255,7 +1255,7 @@ func (schema *Schema) visitEnumOperation(settings *schemaValidationSettings, val
 					return
 				}
 			default:
-				if reflect.DeepEqual(v, value) {
+				if enumMemberEqual(v, value) {
 					return
 				}
 			}
@@ -1273,6 +1273,59 @@ func (schema *Schema) visitEnumOperation(settings *schemaValidationSettings, val
 		}
 	}
 	return
+}
+
+// enumNumber returns the numeric value of x if x is of one of the types visitJSON takes for a JSON number.
+func enumNumber(x any) (float64, bool) {
+	switch n := x.(type) {
+	case float64:
+		return n, true
+	case int:
+		return float64(n), true
+	case int32:
+		return float64(n), true
+	case int64:
+		return float64(n), true
+	case json.Number:
+		f, err := strconv.ParseFloat(n.String(), 64)
+		return f, err == nil
+	}
+	return 0, false
+}
+
+// enumMemberEqual tells whether an enum member equals the instance: as reflect.DeepEqual does, except that
+// numbers (also those nested in arrays and objects) are compared by value, whichever Go type carries them.
+func enumMemberEqual(member, value any) bool {
+	if f, ok := enumNumber(value); ok {
+		m, ok := enumNumber(member)
+		return ok && m == f
+	}
+	switch v := value.(type) {
+	case []any:
+		m, ok := member.([]any)
+		if !ok || len(m) != len(v) {
+			return false
+		}
+		for i := range v {
+			if !enumMemberEqual(m[i], v[i]) {
+				return false
+			}
+		}
+		return true
+	case map[string]any:
+		m, ok := member.(map[string]any)
+		if !ok || len(m) != len(v) {
+			return false
+		}
+		for k, e := range v {
+			me, ok := m[k]
+			if !ok || !enumMemberEqual(me, e) {
+				return false
+			}
+		}
+		return true
+	}
+	return reflect.DeepEqual(member, value)
 }
 
 func (schema *Schema) visitNotOperation(settings *schemaValidationSettings, value any) (err error) {
